@@ -421,14 +421,21 @@ func ZZ_C10_in_the_name_of() {
 	pair, err := w.Password("c1", []string{"offline", "photos"})
 	zz.Assume(err == nil)
 	at := pair.GetAccessToken()
-	basic := zz.Choice("transport", 2) == 0
+	transport := zz.Choice("transport", 3)
+	basic := transport != 1
 	claimed := zz.String("claimed_id", 3)
 	post := func(form url.Values) *http.Request {
-		form.Set("client_id", claimed)
+		if transport != 2 {
+			form.Set("client_id", claimed)
+		}
 		if !basic {
 			form.Set("client_secret", world.Secret2) // c2's secret next to c1's id
 		}
 		r := world.Post(form)
+		if transport == 2 {
+			// the claimed client_id travels in the URL query only (r.Form), not in the body (r.PostForm)
+			r.Form.Set("client_id", claimed)
+		}
 		if basic {
 			r.Header.Set("Authorization", world.BasicHeader("c2", world.Secret2))
 		}
@@ -490,4 +497,38 @@ func ZZ_C10_in_the_name_of() {
 	}
 	zz.Cover("name:processed:"+name, true)
 	zz.Assert(owner == "c2", "a processed request is processed in the name of the client that proved its secret")
+}
+
+// ---------------------------------------------------------------- a retired secret stops working
+
+// ZZ_C10_retired_secret: the client has a current and a rotated secret; a request authenticates with a
+// symbolic presented secret; then the registration drops the rotated hash (the current one stays) and a
+// second request presents another symbolic secret on the SAME provider instance: it is processed only if
+// it is the client's current secret - whatever authenticated before.
+func ZZ_C10_retired_secret() {
+	w := world.New(world.Options{})
+	ctx := w.Ctx
+	c := w.Store.Clients["c1"].(*fosite.DefaultClient)
+	h := &fosite.BCrypt{Config: w.Cfg}
+	const retired = "secret-of-c1-retired"
+	old, err := h.Hash(ctx, []byte(retired))
+	zz.Assume(err == nil)
+	c.RotatedSecrets = [][]byte{old}
+	auth := func(secret string) error {
+		form := url.Values{"grant_type": {"client_credentials"}, "scope": {"photos"}, "client_id": {"c1"}, "client_secret": {secret}}
+		_, err := w.Provider.NewAccessRequest(ctx, world.Post(form), world.NewSession(""))
+		return err
+	}
+	p1 := zz.String("first", 22)
+	err1 := auth(p1)
+	zz.Observe("first.err", world.ErrName(err1))
+	zz.Assert((err1 == nil) == (p1 == world.Secret1 || p1 == retired), "first: processed iff the current or the rotated secret is presented")
+	// the rotated secret is retired
+	c.RotatedSecrets = nil
+	p2 := zz.String("second", 22)
+	err2 := auth(p2)
+	zz.Observe("second.err", world.ErrName(err2))
+	zz.Assert((err2 == nil) == (p2 == world.Secret1), "second: processed iff the CURRENT secret is presented (a retired secret no longer authenticates)")
+	zz.Cover("retired:used-before-retirement", err1 == nil && p1 == retired)
+	zz.Cover("retired:refused-after-retirement", err2 != nil && p2 == retired)
 }
